@@ -1,12 +1,145 @@
-"""C40 -- SMTP message bodies are transparent: bounded stand-in (contracts/parts/C40_bounded.py); deductive contracts may be added later."""
-from contracts._parts import bounded, EXPLORATION_NOTE
+"""C40 -- SMTP transfers message bodies transparently.
 
-CONTRACTS = []
+Deductive, on the receiving side: smtp.SMTP.dataLineReceived for an arbitrary line (any bytes a LineOnlyReceiver can
+deliver) in every state of the DATA phase: the transfer ends exactly when the line is a single '.'; every other line is
+handed to every message exactly once, with one leading '.' removed and nothing else changed; the documented header
+handling (an empty line first when the body does not start with a header) is the only thing ever added; no line changes
+the protocol mode, so nothing in a body can be taken for an SMTP command; once a message has refused a line nothing more
+is delivered.  LineOnlyReceiver's own segmentation independence is C16.  The client's dot-stuffing is exercised in the
+bounded tier (and has a recorded finding: it is stateless across read chunks).
+Bounded (contracts/parts/C40_bounded.py): the real client, FileSender and server end to end.
+"""
+import z3
+
+from pyvc.api import *
+from pyvc import core
+from contracts._parts import bounded
+from twisted.mail import smtp
+
+M = "twisted.mail.smtp"
+
+
+def ev(S, name):
+    return [e for e in S.trace if e.name == name]
+
+
+def line_received(I, msg, line):
+    c = ctx()
+    c.emit("lineReceived", msg, (line,))
+    if c.ghost["refuses"] and c.decide(z3.Bool(c.fresh_name("message_refuses_the_line"))):
+        raise smtp.SMTPServerError(550, b"no")
+
+
+def rec(name):
+    def h(I, obj, *a, **kw):
+        ctx().emit(name, obj, a, kw)
+        return core.SObj(None, name + "_result", {}, opaque=True)
+    return h
+
+
+def deferred_list(I, ds, **kw):
+    ctx().emit("DeferredList", None, (list(ds),), kw)
+    return core.SObj(None, "dl", {}, opaque=True)
+
+
+class DataLine(Contract):
+    prop = "C40"
+    module = M
+    function = "SMTP.dataLineReceived"
+    differential = False
+    calls = {"m1.lineReceived": line_received, "m2.lineReceived": line_received, "m1.connectionLost": rec("connectionLost"),
+             "m2.connectionLost": rec("connectionLost"), "m1.eomReceived": rec("eomReceived"), "m2.eomReceived": rec("eomReceived"),
+             "DeferredList": deferred_list, "dl.addCallback": rec("dl.addCallback")}
+    summaries = {"SMTP.sendCode": lambda I, *a: ctx().emit("sendCode", None, a[-2:]),
+                 "SMTP._messageHandled": lambda I, *a: ctx().emit("messageHandled", None, a[-1:])}
+    inputs = dict(line=Bytes(alphabet=b".a:", small_len=2), inheader=ForkBool(), inbody=ForkBool(), failed=ForkBool(),
+                  nmsg=OneOf(0, 1, 2), refuses=ForkBool())
+    trusted = ["one or two messages (recipients) per transaction; each is an opaque IMessage whose lineReceived may raise "
+               "SMTPServerError, recorded call-outs",
+               "sendCode / _messageHandled / DeferredList are summarised as events (the reply codes are not part of this property)"]
+
+    def requires(self, i):
+        # the two header-tracking flags are never both set; a message can only refuse a line if there is one
+        return band(bnot(band(i.inheader, i.inbody)), bor(bnot(i.refuses), i.nmsg > 0))
+
+    def setup(self, i):
+        msgs = [self.opaque("m1"), self.opaque("m2")][:i.nmsg]
+        failed = smtp.SMTPServerError(451, b"earlier") if i.failed else None
+        real = smtp.SMTP()
+        s = self.make(smtp.SMTP, **dict(vars(real), mode=smtp.DATA, datafailed=failed, _SMTP__messages=list(msgs),
+                                        _SMTP__inheader=1 if i.inheader else 0, _SMTP__inbody=1 if i.inbody else 0))
+        return dict(self=s, args=[i.line], objs=dict(s=s), ghost=dict(msgs=msgs, refuses=bool(i.refuses), failed=failed))
+
+    def bounded_inputs(self, tier):
+        return iter(())
+
+    raises = ()
+
+    def _ends(S):
+        """the transfer ends exactly at a line that is a single dot"""
+        ended = S.new.s.mode != smtp.DATA
+        return veq(S.i.line, b".") if ended else bnot(veq(S.i.line, b"."))
+
+    def _lines(S):
+        i = S.i
+        got = ev(S, "lineReceived")
+        msgs = S.ghost["msgs"]
+        if S.new.s.mode != smtp.DATA:
+            return len(got) == 0  # the terminating dot is not part of the body
+        if i.failed:
+            return band(len(got) == 0, S.new.s.datafailed is S.ghost["failed"])
+        payload_is_tail = core.seq_startswith(i.line, b".")
+        want_payload = i.line[1:] if S.ghost["$interp"].truth(payload_is_tail) else i.line
+        # what each message must have been given, in order
+        per = {id(m): [e.args[0] for e in got if e.target is m] for m in msgs}
+        refused = S.new.s.datafailed is not None
+        if refused:
+            # a message refused: from then on nothing is delivered to anybody (and every message is told the connection is lost)
+            return band(S.ghost["refuses"], len(ev(S, "connectionLost")) == len(msgs))
+        ok = True
+        for m in msgs:
+            seq = per[id(m)]
+            if len(seq) == 1:
+                ok = band(ok, veq(seq[0], want_payload))
+            elif len(seq) == 2:
+                # documented header handling: one empty line before a body that does not start with a header
+                ok = band(ok, veq(seq[0], b""), veq(seq[1], want_payload), bnot(i.inheader), bnot(i.inbody),
+                          bnot(core.seq_contains(want_payload, b":")), L(want_payload) > 0)
+            else:
+                return False
+        return band(ok, len(ev(S, "connectionLost")) == 0)
+
+    def _blank_rule(S):
+        """the extra empty line is added exactly when the body starts with a line that is neither empty nor header-like"""
+        if S.new.s.mode != smtp.DATA or S.i.failed or S.new.s.datafailed is not None or not S.ghost["msgs"]:
+            return None
+        i = S.i
+        got = [e for e in ev(S, "lineReceived") if e.target is S.ghost["msgs"][0]]
+        payload = i.line[1:] if S.ghost["$interp"].truth(core.seq_startswith(i.line, b".")) else i.line
+        starts_body = band(bnot(i.inheader), bnot(i.inbody), bnot(core.seq_contains(payload, b":")), L(payload) > 0)
+        return starts_body if len(got) == 2 else bnot(starts_body)
+
+    ensures = dict(ends_exactly_at_the_single_dot=_ends, every_message_gets_the_line_with_one_leading_dot_removed=_lines,
+                   only_the_documented_blank_line_is_added=_blank_rule)
+    canaries = [("            line = line[1:]\n", "            line = line[1:].lstrip(b\".\")\n", "!verify"),
+                ("            if line == b\".\":", "            if line in (b\".\", b\"..\"):", "ends_exactly_at_the_single_dot"),
+                ("        if line[:1] == b\".\":", "        if line[:1] == b\".\" and self._SMTP__inbody:", "every_message_gets_the_line_with_one_leading_dot_removed")]
+
+
+CONTRACTS = [DataLine]
 BOUNDED = bounded("C40")
-NOTES = dict(explanation='real SMTPClient + FileSender to real ESMTP: every LF-terminated body over {. a LF} up to 6 bytes in every composition into read chunks, line-token bodies, every 2-way payload split, RFC 5321 reference sender/receiver', not_covered=["deductive contracts on the anchored functions (not built)"])
+_SCOPE = ('real SMTPClient + FileSender to real ESMTP: every LF-terminated body over {. a LF} up to 6 bytes in every composition into read chunks, line-token bodies, every 2-way payload split, RFC 5321 reference sender/receiver')
+NOTES = dict(explanation="the server's DATA line handler proved for every line and state; client, FileSender and the end-to-end transfer bounded: " + _SCOPE,
+             not_covered=["SMTPClient.transformChunk / FileSender (the client's dot-stuffing across read chunks: bounded tier, recorded finding)",
+                          "LineOnlyReceiver segmentation (C16), the reply to the end of the message"])
 MANIFEST = dict(
-    category="exploration",
-    text="Bounded stand-in only, on the real code: " + 'real SMTPClient + FileSender to real ESMTP: every LF-terminated body over {. a LF} up to 6 bytes in every composition into read chunks, line-token bodies, every 2-way payload split, RFC 5321 reference sender/receiver' + ".",
-    note=EXPLORATION_NOTE,
-    technique="bounded exhaustive evaluation of an executable contract on the real code (stand-in; not proved)",
+    category="proof",
+    text="smtp.SMTP.dataLineReceived is proved, for every line and every state of the DATA phase (header seen or not, an "
+         "earlier refusal or not, zero to two recipients whose lineReceived may raise): the mode changes -- the transfer ends "
+         "-- exactly when the line is a single '.', which is not delivered; every other line reaches every message exactly "
+         "once with one leading '.' removed and is otherwise unchanged; the only line ever added is the documented empty line "
+         "before a body that does not start with a header; after a refusal nothing more is delivered.  The client's "
+         "dot-stuffing and the end-to-end transfer are exercised in the bounded tier only: " + _SCOPE + ".",
+    note="Trusted: pyvc, SMT solvers, messages as recorded call-outs, at most two recipients.  Everything else: bounded, never counted as proved.",
+    technique="contract-based deductive verification (symbolic execution over an arbitrary line, call-out traces, SMT strings) + bounded exhaustive end-to-end transfers",
 )
